@@ -4,6 +4,8 @@ import Ymq.Props.C13Log
 #print axioms Ymq.C13.accumulator_spec_small
 #print axioms Ymq.C13.accumulator_spec_tables
 #print axioms Ymq.C13.accumulator_no_overflow_tables
+#print axioms Ymq.C13.accumulator_spec_large
+#print axioms Ymq.C13.accumulator_no_overflow_new
 #print axioms Ymq.C13.accumulator_spec_partial
 #print axioms Ymq.C13.accumulator_overflow_iff
 #print axioms Ymq.C13.accumulator_overflow_witness
